@@ -166,6 +166,12 @@ example : boxedR ⟨.portRestricted, .portRestricted, .same, false⟩ = true ∧
 theorem intro_reaches_after_churn_partial (c : Cfg) (hp : boxedP c = true) : allOkDyn c (preChurn c) = true :=
   List.all_eq_true.mp tableL c (by simp [List.mem_filter, mem_allCfgs, hp])
 
+/-- restart of the requester: after the whole script R shuts down and starts again with a Network filled from its snapshot
+    — P's address is known but has NO introducer (and is therefore not walkable for the overlay), nobody is verified.
+    R's next introduction by I re-parents that address (`discover_address` adopts an address whose recorded introducer is
+    empty), R's walk reaches P, the answer returns, both are verified at each other again. -/
+theorem intro_reaches_after_restart_partial (c : Cfg) : restartOk c = true := of_all tableM c
+
 /-! ## reachable states outside the tables in which the unchanged code FAILS (known findings, witnesses) — not exhaustive -/
 
 /-- KNOWN FINDING (a), negation of the full statement: R and P behind one box (both port-restricted, old style, the
